@@ -650,7 +650,12 @@ class Node:
                 item_value_node.set_attribute(
                         cast(str, value_attribute), ynode)
 
-            item_value_node.set_attribute(key_attribute, item_key.value)
+            if isinstance(item_key, yaml.ScalarNode):
+                item_value_node.set_attribute(key_attribute, item_key.value)
+            else:
+                # a sequence or mapping as key: keep it as it is, so that it
+                # is reported where the key attribute is type checked
+                item_value_node.set_attribute(key_attribute, item_key)
             object_list.append(item_value_node.yaml_node)
         seq_node = yaml.SequenceNode('tag:yaml.org,2002:seq', object_list,
                                      start_mark, end_mark)
